@@ -118,7 +118,8 @@ Definition ser_ascii (ss : list (list Z)) : list Z := join_nul ss.
 (* ------------------------------------------------------------------------------------ *)
 Fixpoint drop_zeros (bs : list Z) : list Z :=
   match bs with [] => [] | b :: r => if b =? 0 then drop_zeros r else bs end.
-Definition strip_nul (bs : list Z) : list Z := rev (drop_zeros (rev bs)).
+(* = rev (drop_zeros (rev bs)), with the linear-time reversal *)
+Definition strip_nul (bs : list Z) : list Z := rev_append (drop_zeros (rev_append bs [])) [].
 Definition parse_wkt (p : list Z) : option (list Z) := if ascii_ok p then Some (strip_nul p) else None.
 (* if not b or b[-1] != 0: b += b"\0" *)
 Definition ser_wkt (s : list Z) : list Z := if last s 1 =? 0 then s else s ++ [0].
